@@ -124,6 +124,8 @@ def ops_for(models, depth_left, tier_small):
                 continue
             for ti in tsi:
                 out.append(("insert", o, p, ti))
+        for fi in (1, 2):
+            out.append(("read", o, fi))
         if len(models) >= 3:
             continue
         for d in ("copy", "reverse", "reverse_copy", "facet", "fp", "fpc", "fpt", "fptc", "ft", "ftc"):
@@ -150,6 +152,12 @@ def m_step(models, op, defect, order=None):
         return
     _gid[0] += 1
     new = _gid[0]
+    if t == "read":
+        # read() rebinds both indexes to fresh dictionaries: the object leaves its alias group, nobody else changes
+        m.db = parse_file(FILES[op[2]], False)
+        m.rdb = m_rev(m.db)
+        m.group = new
+        return
     if t == "copy":
         nm = M(cp(m.db), cp(m.rdb), new)
     elif t == "reverse":
@@ -183,6 +191,9 @@ def i_step(objs, op):
     o = objs[op[1]]
     if t == "insert":
         o.insert(op[2], set(TAGSETS[op[3]]))
+        return None
+    if t == "read":
+        o.read(iter(FILES[op[2]]))
         return None
     order = None
     if t == "copy":
@@ -279,7 +290,7 @@ def build(fi, tag_filter, hist, defect, check_from=0):
                     continue
                 bad = observe(o, m, not defect)
                 if bad:
-                    if o is not objs[op[1]] and not (op[0] != "insert" and o is objs[-1]):
+                    if o is not objs[op[1]] and not (op[0] not in ("insert", "read") and o is objs[-1]):
                         bad = ("independent-object-changed/" + bad[0],) + bad[1:]
                     return None, None, (n,) + bad
     return models, objs, None
